@@ -495,6 +495,12 @@ func suiteStream(o *Out, r *Rng, n int, tier string) {
 			c.mode = "num"
 			c.start = -int64(r.Intn(int(headNum0-chain[0].Num) + 3))
 			o.Stat("stream.start.negative", 1)
+			// half of the time the stop block lies just below the block the negative start resolves to: the request is
+			// invalid (start after stop), which only shows once the start has been resolved against the head
+			if resolved := int64(headNum0) + c.start; r.Bool() && resolved > int64(chain[0].Num)+2 {
+				c.stop = uint64(resolved) - 1 - uint64(r.Intn(2))
+				o.Stat("stream.start.negative_resolving_above_the_stop_block", 1)
+			}
 		case 5:
 			c.mode = "num"
 			c.start = int64(c.stop) + int64(r.Intn(3)) // at or after the stop block
